@@ -336,7 +336,7 @@ def run_daemon(desc):
         if not d.alive() and d.proc is not None:
             res.violation('C03/daemon:process-exits:unknown', f'the daemon exited (rc {d.proc.poll()}): {str(e)[:200]}', {'log': d.tail(2000)}, 'daemon')
         else:
-            res.inconclusive.append('daemon: ' + str(e)[:400])
+            daemon.skipped(res, str(e))
     finally:
         try:
             if peer is not None:
@@ -566,7 +566,7 @@ def run_shard(desc):
 
 
 def finish(merged, tier, seed):
-    need = ['update:valid', 'open:valid', 'notification:valid', 'refresh:valid', 'update:mutated', 'update:random', 'update:structured', 'update:cut-attribute', 'update:qa-seed'] + [f'update:unusual:{k}' for k in UNUSUAL]
+    need = ['daemon:structured', 'daemon:mutated-qa', 'daemon:helper-lines', 'update:valid', 'open:valid', 'notification:valid', 'refresh:valid', 'update:mutated', 'update:random', 'update:structured', 'update:cut-attribute', 'update:qa-seed'] + [f'update:unusual:{k}' for k in UNUSUAL]
     missing = [c for c in need if not merged['classes'].get(c)]
     if missing:
         merged['inconclusive'].append('classes never judged: ' + ','.join(missing))
